@@ -163,6 +163,21 @@ def main():
             nt = compare(run, f'{r}/{s}->{x}', cs, rs, cr, rr, attr, f'+{x}')
             run.block(f'FLAG/{r}/+{x}', len(cs), nt, True, deviations=1)
 
+    # ---- limits under Sec termination: the limit applies to the terminated form, not to the Sec-containing fragment --
+    if not run.only or 'sectlimits' in run.only:
+        SF = ('--selenocysteine-termination',)
+        maxes = (6, 7, 8, 9) if run.tier == 'quick' else (4, 5, 6, 7, 8, 9, 10, 11, 12, 13, 14)
+        hi = 70 if run.tier == 'quick' else None
+        chain = []
+        for m in maxes:
+            cfg = E.Cfg(exception=None, misc=1, min_length=4, max_length=m, flags=SF)
+            cases = E.d1_cases('R6', 'ENST06', cfg, 0, hi)
+            name = f'D1/R6/sect/max{m}' if hi == 70 else f'D1/R6/sect/max{m}/all'
+            chain.append((m, cases, E.run_block(name, cases, jobs=run.jobs)[0]))
+        for (ms, cs, rs), (mx, cr, rr) in zip(chain, chain[1:]):
+            nt = compare(run, f'R6/sect/max{ms}->max{mx}', cs, rs, cr, rr, attr_maxlen, f'sect:max{ms}->max{mx}')
+            run.block(f'EDGE/R6/sect/max{ms}->max{mx}', len(cs), nt, True, deviations=1)
+
     # ---- adding a record: S subset of S+{v} -----------------------------------------------------
     if not run.only or 'add' in run.only:
         for r, tx in (('R1', 'ENST01'), ('R3', 'ENST03')):
